@@ -42,7 +42,7 @@ const TOKENS: [&str; 40] = [
 ];
 
 fn random_source(r: &mut Rng) -> String {
-    match r.below(4) {
+    match r.below(7) {
         0 => {
             let n = r.below(25);
             (0..n).map(|_| *r.pick(&SOUP)).collect::<Vec<_>>().concat()
@@ -67,6 +67,21 @@ fn random_source(r: &mut Rng) -> String {
             }
             let d = 1 + r.below(4);
             e(r, d)
+        },
+        4 => {
+            // many parentheses: nested, in a string literal, in a comment (all legal, all within the 4096-character bound)
+            let d = 200 + r.below(700);
+            match r.below(4) {
+                0 => format!("{}1{}", "(".repeat(d), ")".repeat(d)),
+                1 => format!("\"{}\" + \"x\"", "(".repeat(d)),
+                2 => format!("1 /* {} */ + 2", "(".repeat(d)),
+                _ => format!("{}a{}", "f(".repeat(d.min(600)), ")".repeat(d.min(600))),
+            }
+        },
+        5 => {
+            // string literals with line endings of every kind
+            let body = (0..r.below(6)).map(|_| *r.pick(&["\r\n", "\r", "\n", "a", " ", "\n\r"])).collect::<Vec<_>>().concat();
+            format!("\"{}\" + \"b\"", body)
         },
         _ => {
             let n = r.below(12);
@@ -102,8 +117,13 @@ fn random_value(r: &mut Rng, depth: usize) -> Value {
         6 => Value::Boolean(r.below(2) == 0),
         7 => Value::Empty,
         _ => {
-            let n = r.below(4);
-            Value::Tuple((0..n).map(|_| random_value(r, depth - 1)).collect())
+            // mostly short, sometimes long (8-40 elements), sometimes all numbers of mixed kinds
+            let n = if r.below(4) == 0 { 8 + r.below(33) } else { r.below(4) };
+            if r.below(3) == 0 {
+                Value::Tuple((0..n).map(|_| if r.below(2) == 0 { Value::Int(r.below(100) as i64 - 50) } else { Value::Float(r.below(100) as f64 / 4.0) }).collect())
+            } else {
+                Value::Tuple((0..n).map(|_| random_value(r, depth - 1)).collect())
+            }
         },
     }
 }
